@@ -28,6 +28,8 @@ type treeCase struct {
 	Root   string            `json:"root"`
 	Outer  map[string]string `json:"outer,omitempty"` // decoy files placed in the parent of the project root
 	Banned []string          `json:"banned,omitempty"`
+	// every banned kind passed as an option of its own (in this order), with an empty option between them
+	BanSplit bool `json:"bansplit,omitempty"`
 	Mode   string            `json:"mode,omitempty"` // tree (default) | build
 	// how the root file is named when it is handed to the library: "" = absolute path (default);
 	// "empty" = unnamed file, "rel" = "root.jst", "dotrel" = "./root.jst" - the three with the
